@@ -116,3 +116,119 @@ theorem name_head_ne_open {n : String} (h : classify n = .identifier) (rest : Li
     simp [this]
 
 end ASV.Reprint
+
+namespace ASV.Reprint
+open ASV ASV.Rules ASV.Parser ASV.Grammar
+
+theorem lit_notsp : "not ".toList = notSp := by decide
+theorem lit_notpar : "not (".toList = notSp ++ ['('] := by decide
+theorem lit_minscore : "minscore(".toList = 'm' :: "inscore(".toList := by decide
+theorem lit_minimum : "minimum(".toList = 'm' :: "inimum(".toList := by decide
+theorem lit_cds : "cds(".toList = 'c' :: "ds(".toList := by decide
+
+theorem notSp_prefix_self (l : List Char) : notSp.isPrefixOf (notSp ++ l) = true := by
+  simp [notSp, List.isPrefixOf]
+
+theorem notPrefix_true : notPrefix true = notSp := by simp [notPrefix, lit_notsp]
+theorem notPrefix_false : notPrefix false = [] := by simp [notPrefix]
+
+theorem name_ne_open {n : String} (h : classify n = .identifier) : (n == "(") = false := by
+  cases hn : n == "(" with
+  | false => rfl
+  | true =>
+    have : n = "(" := by simpa using hn
+    subst this
+    exact absurd h (by decide +kernel)
+
+/-- L: the tests of the repaired `__str__` on characters are tests on the first token -/
+theorem first_chars : ∀ c : Cond, NamesOk c → Cond.isConj c = false →
+    notSp.isPrefixOf (printChars c) = ((printTexts c).head? == some "not") ∧
+    ((printChars c).head? == some '(') = ((printTexts c).head? == some "(")
+  | .single neg n, h, _ => by
+      have hn : classify n = .identifier := h n (by simp [Cond.profiles])
+      cases neg with
+      | true =>
+        simp only [printChars, printTexts, notPrefix_true, notT]
+        exact ⟨by (try simp only [List.append_assoc]); rw [notSp_prefix_self]; rfl, by simp [notSp]⟩
+      | false =>
+        simp only [printChars, printTexts, notPrefix_false, notT, List.nil_append]
+        have h1 := name_not_prefix hn [] (by intro x xs h; cases h)
+        have h2 := name_head_ne_open hn []
+        simp only [List.append_nil] at h1 h2
+        rw [h1, h2]
+        simp [name_ne_not hn, name_ne_open hn]
+  | .score neg n s, _, _ => by
+      cases neg with
+      | true =>
+        simp only [printChars, printTexts, notPrefix_true, notT, List.append_assoc]
+        exact ⟨by (try simp only [List.append_assoc]); rw [notSp_prefix_self]; rfl, by simp [notSp]⟩
+      | false =>
+        simp only [printChars, printTexts, notPrefix_false, notT, List.nil_append, lit_minscore, List.cons_append]
+        exact ⟨by simp [notSp, List.isPrefixOf], by simp⟩
+  | .minimum neg c opts, _, _ => by
+      cases neg with
+      | true =>
+        simp only [printChars, printTexts, notPrefix_true, notT, List.append_assoc]
+        exact ⟨by (try simp only [List.append_assoc]); rw [notSp_prefix_self]; rfl, by simp [notSp]⟩
+      | false =>
+        simp only [printChars, printTexts, notPrefix_false, notT, List.nil_append, lit_minimum, List.cons_append]
+        exact ⟨by simp [notSp, List.isPrefixOf], by simp⟩
+  | .cds neg subs, _, _ => by
+      cases neg with
+      | true =>
+        simp only [printChars, printTexts, notPrefix_true, notT, List.append_assoc]
+        exact ⟨by (try simp only [List.append_assoc]); rw [notSp_prefix_self]; rfl, by simp [notSp]⟩
+      | false =>
+        simp only [printChars, printTexts, notPrefix_false, notT, List.nil_append, lit_cds, List.cons_append]
+        exact ⟨by simp [notSp, List.isPrefixOf], by simp⟩
+  | .group neg [], _, _ => by
+      cases neg with
+      | true =>
+        simp only [printChars, printTexts, isSingleton, Bool.false_and, Bool.false_eq_true, ↓reduceIte, notPrefix_true,
+          notT]
+        exact ⟨by (try simp only [List.append_assoc]); rw [notSp_prefix_self]; rfl, by simp [notSp]⟩
+      | false =>
+        simp only [printChars, printTexts, isSingleton, Bool.false_and, Bool.false_eq_true, ↓reduceIte, notPrefix_false,
+          notT, List.nil_append]
+        exact ⟨by simp [notSp, List.isPrefixOf], by simp⟩
+  | .group neg [x], h, _ => by
+      have hx : NamesOk x := by
+        intro n hn; exact h n (by simp [Cond.profiles, profilesL, hn])
+      by_cases hc : Cond.isConj x = true
+      · cases neg with
+        | true =>
+          simp only [printChars, printTexts, isSingleton, List.all_cons, List.all_nil, hc, Bool.and_true, Bool.not_true,
+            Bool.and_false, Bool.false_eq_true, ↓reduceIte, notPrefix_true, notT]
+          exact ⟨by (try simp only [List.append_assoc]); rw [notSp_prefix_self]; rfl, by simp [notSp]⟩
+        | false =>
+          simp only [printChars, printTexts, isSingleton, List.all_cons, List.all_nil, hc, Bool.and_true, Bool.not_true,
+            Bool.and_false, Bool.false_eq_true, ↓reduceIte, notPrefix_false, notT, List.nil_append]
+          exact ⟨by simp [notSp, List.isPrefixOf], by simp⟩
+      · have hc' : Cond.isConj x = false := by simpa using hc
+        obtain ⟨i1, i2⟩ := first_chars x hx hc'
+        have hpj : printJoin " or ".toList [x] = printChars x := by simp [printJoin]
+        have hjt : joinTexts "or" [x] = printTexts x := by simp [joinTexts]
+        cases neg with
+        | false =>
+          simp only [printChars, printTexts, isSingleton, List.all_cons, List.all_nil, hc', Bool.and_true, Bool.not_false,
+            Bool.true_and, ↓reduceIte, Bool.false_and, Bool.false_eq_true, notPrefix_false, notT, List.nil_append, hpj, hjt]
+          exact ⟨i1, i2⟩
+        | true =>
+          simp only [printChars, printTexts, isSingleton, List.all_cons, List.all_nil, hc', Bool.and_true, Bool.not_false,
+            Bool.true_and, ↓reduceIte, hpj, hjt, lit_notsp, lit_notpar, notPrefix_true, notT]
+          split <;> split <;>
+            first
+              | exact ⟨by (try simp only [List.append_assoc]); rw [notSp_prefix_self]; rfl, by simp [notSp]⟩
+  | .group neg (x :: y :: r), _, _ => by
+      cases neg with
+      | true =>
+        simp only [printChars, printTexts, isSingleton, Bool.false_and, Bool.false_eq_true, ↓reduceIte, notPrefix_true,
+          notT]
+        exact ⟨by (try simp only [List.append_assoc]); rw [notSp_prefix_self]; rfl, by simp [notSp]⟩
+      | false =>
+        simp only [printChars, printTexts, isSingleton, Bool.false_and, Bool.false_eq_true, ↓reduceIte, notPrefix_false,
+          notT, List.nil_append]
+        exact ⟨by simp [notSp, List.isPrefixOf], by simp⟩
+  | .conj _, _, hc => by simp [Cond.isConj] at hc
+
+end ASV.Reprint
